@@ -378,12 +378,19 @@ def shared_source(args):
                         src.get_ask(t, a)
         elif mode == 'pair':
             sl.run_session(cfgs[i], handler, fresh=False)
-        got = digest_obs(sl.run_session(cfgs[j], handler, fresh=False))
+        if mode == 'shared_universe':
+            # the SAME universe object (and data source) serves the session twice
+            uni = sl.make_universe(cfgs[j])
+            sl.run_session(cfgs[j], handler, universe=uni, fresh=False)
+            got = digest_obs(sl.run_session(cfgs[j], handler, universe=uni, fresh=False))
+        else:
+            got = digest_obs(sl.run_session(cfgs[j], handler, fresh=False))
         if got != want:
             viols.append({'clause': 'C18.depends_on_source_history', 'signature': '%s' % mode,
                           'detail': {'first': {'pair': cfgs[i]['name'], 'burst': 'burst of price queries',
                                                'other_market': cfgs[i]['name'] + ' on another market',
-                                               'rewritten_dir': cfgs[i]['name'] + ' on other prices in the same directory'}[mode],
+                                               'rewritten_dir': cfgs[i]['name'] + ' on other prices in the same directory',
+                                               'shared_universe': 'the same session on the same universe object'}[mode],
                                      'second': cfgs[j]['name'], 'digest_in_pristine_process': want,
                                      'digest_after_history': got},
                           'case': {'kind': 'shared', 'i': i, 'j': j, 'mode': mode, 'want': want}})
@@ -485,6 +492,7 @@ def run(tier, res, is_known):
     pairs += [(0, j, 'burst', pristine[j]) for j in range(len(cfgs))]
     pairs += [(i, j, 'other_market', pristine[j]) for i in (0, 1, 3) for j in range(len(cfgs))]
     pairs += [(i, j, 'rewritten_dir', pristine[j]) for i in (0, 1) for j in range(len(cfgs))]
+    pairs += [(j, j, 'shared_universe', pristine[j]) for j in range(len(cfgs))]
     core.product(shared_source, pairs, res, is_known, label='shared source / process histories', chunk=1)
     if any(not is_known(v) for v in res.violations):
         return
